@@ -305,6 +305,9 @@ OUTSIDE_MODEL = {
     "C19h": "tick level computed by multiplying with a cached reciprocal of the tick size: whether that equals price / tick_size (bit for bit) is arithmetic, not shape; the corrected version FC19h has the same shape",
     "C18f": "inheritance rewritten as self-recursion: the rule models the loop form of the chain walk only (the corrected version FC18f is refused in the same way)",
     "C15f": "hook selection memoised per (hook point, time) with invalidation in _add_event: a selection that reads a cache is not the modelled `hooks[None] ++ hooks[time]`",
+    "C04j": "cancel finds the order by an identity scan instead of `in`: the membership test the removal rule is anchored in is gone; whether identity is good enough depends on who may build a Cancel, which is not in the code",
+    "C13j": "hook selection memoised per hook point with invalidation in _add_event (as C15f): a selection that reads a cache is not the modelled `hooks[None] ++ hooks[time]`",
+    "C01k": "comparator extended by a priority class compared before the price: `priority` is not an atom of the order-only model (the default value makes it invisible, which the table cannot know)",
 }
 
 # --------------------------------------------------------------------------- seeded patches
